@@ -12,7 +12,7 @@ use vcore::rt::{self, digest_str, esc, Acc, Args, Report};
 use vcore::sgr::{self, MColor, MStyle, ANSI_COLORS};
 use vcore::vt;
 
-const RULE: &str = "Cases: (fg, bg) over all 17 x 17 pairs (None + 16 palette colours) x data (empty, plain text, escape-rich G-STREAM data up to a few KiB) x inner-writer plan: accept everything; accept only a prefix of the data (every prefix length for short data); fail with Interrupted/WouldBlock/Other at the k-th inner write, k = 1..=4; through ansi::write_colored and WinconStream::write_colored on Vec<u8>, File, &mut dyn Write, Box<dyn Write>. Oracle: output = P . data[..n] . S where P consists solely of SGR sequences that set exactly (fg, bg) from the default state, S solely of SGR sequences restoring the default state, both empty when no colour is given; return value n = data bytes accepted; strip(output) == strip(data[..n]); on an injected error the call returns Err of that kind and what was emitted is a prefix of the full framing. Non-trivial = at least one colour and non-empty data (distinct by case).";
+const RULE: &str = "Cases: (fg, bg) over all 17 x 17 pairs (None + 16 palette colours) x data (empty, plain text, escape-rich G-STREAM data up to a few KiB, printable runs of 64..200 KiB) x inner-writer plan: accept everything; accept only a prefix of the data (every prefix length for short data); fail with Interrupted/WouldBlock/Other at the k-th inner write, k = 1..=4; through ansi::write_colored and WinconStream::write_colored on Vec<u8>, File, &mut dyn Write, Box<dyn Write>. Oracle: output = P . data[..n] . S where P consists solely of SGR sequences that set exactly (fg, bg) from the default state, S solely of SGR sequences restoring the default state, both empty when no colour is given; return value n = data bytes accepted; strip(output) == strip(data[..n]); on an injected error the call returns Err of that kind and what was emitted is a prefix of the full framing. Non-trivial = at least one colour and non-empty data (distinct by case).";
 
 #[derive(Clone, Copy, Debug, Serialize, Deserialize, PartialEq)]
 enum Plan {
@@ -235,6 +235,29 @@ fn arb_case() -> impl Strategy<Value = Case> {
         })
 }
 
+/// data of 64 KiB and more (16-bit boundaries); accepted whole or up to a prefix around 64 KiB
+fn arb_huge_case() -> impl Strategy<Value = Case> {
+    (
+        proptest::option::weighted(0.8, 0u8..16),
+        proptest::option::weighted(0.6, 0u8..16),
+        vcore::gen::huge_text(false),
+        prop_oneof![
+            3 => Just(Plan::AcceptAll),
+            2 => prop::sample::select(vec![65_535usize, 65_536, 65_537, 70_000]).prop_map(Plan::DataPrefix),
+            1 => any::<u16>().prop_map(|f| Plan::DataPrefix(f as usize)),
+            1 => (1usize..=4, 0u8..3).prop_map(|(k, e)| Plan::FailAt(k, e)),
+        ],
+        prop_oneof![3 => 0u8..3, 1 => Just(3u8), 1 => Just(4u8)],
+    )
+        .prop_map(|(fg, bg, data, plan, target)| {
+            let plan = match plan {
+                Plan::DataPrefix(f) => Plan::DataPrefix(f.min(data.len())),
+                p => p,
+            };
+            Case { fg, bg, hex: rt::hex(&data), plan, target }
+        })
+}
+
 fn run(args: &Args, rep: &mut Report) {
     let tier = args.tier;
     rep.level("fault_enumeration");
@@ -296,6 +319,22 @@ fn run(args: &Args, rep: &mut Report) {
             arb_case,
             |case, _: &mut Acc| match check(case) {
                 Ok(nt) => Verdict::ok(nt.then(|| digest_str(&serde_json::to_string(case).unwrap()))),
+                Err(m) => Verdict { result: Err(m), nontrivial: None },
+            },
+            |case| serde_json::to_value(case).unwrap(),
+        ),
+    );
+    rep.add(
+        "huge-data",
+        false,
+        "random colour pair x data of 64 KiB..200 KiB x {accept all, prefix of 65535/65536/65537/70000/random bytes, fail at inner write 1..4} x target",
+        prop_par(
+            "huge-data",
+            args.seed,
+            tier.pick(300, 20_000),
+            arb_huge_case,
+            |case, _: &mut Acc| match check(case) {
+                Ok(nt) => Verdict::ok(nt.then(|| digest_str(&format!("{:?}{:?}{:?}{}{}", case.fg, case.bg, case.plan, case.target, case.hex.len())))),
                 Err(m) => Verdict { result: Err(m), nontrivial: None },
             },
             |case| serde_json::to_value(case).unwrap(),
